@@ -389,7 +389,9 @@ pub fn run_sub<S: Sub>(s: &S, opts: &Opts, total_cases: u32, report: &mut Report
         for shard in 0..shards {
             let stop = stop.clone();
             let results = &results;
-            scope.spawn(move || {
+            // (64 MiB stacks: building a lexicon recurses once per character of a surface)
+            let builder = std::thread::Builder::new().name(format!("shard{shard}")).stack_size(64 << 20);
+            let _handle = builder.spawn_scoped(scope, move || {
                 let seed = splitmix(opts.seed ^ sub_seed ^ splitmix(shard as u64 + 1));
                 let mut seed_bytes = [0u8; 32];
                 for (i, chunk) in seed_bytes.chunks_mut(8).enumerate() {
@@ -450,6 +452,10 @@ pub fn run_sub<S: Sub>(s: &S, opts: &Opts, total_cases: u32, report: &mut Report
                     }
                 };
                 results.lock().unwrap().push((ctx.into_inner(), fail));
+            })
+            .unwrap_or_else(|e| {
+                println!("INCONCLUSIVE cannot spawn a shard thread: {e}");
+                std::process::exit(2);
             });
         }
     });
